@@ -129,6 +129,9 @@ def r4_hold_for_whole_run(chk: Check):
     from ..sched import lock_phase
 
     tree = chk.tree
+    from . import c09
+
+    c09.lock_level_protocol(chk)
     st = tree.func("scheduler.base", "Scheduler.aio_start")
     g = CFG(st.node)
     loc = chk.loc(st.module, st.node)
